@@ -514,7 +514,9 @@ class SynthObject(gpp.UGenParameter, metaclass=MetaSynthObject):
     def _perform_dead_code_elimination(self):
         if not self._descendants:
             # for input in self._antecedents:  # ?
-            for input in self.inputs:
+            for i in range(len(self.inputs)):
+                # Re-read: optimizing an input may replace a later one.
+                input = self.inputs[i]
                 if isinstance(input, UGen) and input._descendants\
                 and self in input._descendants:  # Same input may repeat.
                     input._descendants.remove(self)
